@@ -145,6 +145,12 @@ def run(c):
         g = c.gotest("partset", "TestBlockFields", env=dict(BF_DUMP=dump, BF_INITIAL=int(initial), BF_SCENES=(8 if pairs or depth > 2 else 2)),
                      timeout=3000, tag="blockfields " + tag)
         c.absorb(g)
+        if not initial and not pairs and depth == 2:
+            # the same behaviours on a chain whose validator set changes exactly between heights 2 and 3: the last
+            # commit is judged and the median time weighted by the PREVIOUS set
+            g = c.gotest("partset", "TestBlockFields", env=dict(BF_DUMP=dump, BF_INITIAL=0, BF_CHANGED=1, BF_SCENES=2, BF_STRIDE=(1 if th else 3)),
+                         timeout=3000, tag="blockfields (validator set changed between heights 2 and 3) " + tag)
+            c.absorb(g)
         os.remove(dump)
     # documented negatives
     r = c.tlc("partset", "bf-neg1.cfg", module="MC_BlockFields",
